@@ -853,6 +853,10 @@ def dev_rare_case(cls="BinaryCarver"):
         y += [1] * n_pos + [0] * (100 - n_pos)
     if cls == "ContinuousCarver":
         y = [float(v * 10 + (i % 3)) for i, v in enumerate(y)]
+    if cls == "MulticlassCarver":      # three classes, each category mostly one of them
+        y = []
+        for main in (0, 1, 2):
+            y += [main] * 80 + [(main + 1) % 3] * 10 + [(main + 2) % 3] * 10
     f = {"name": "c0", "kind": "cat", "flavour": "letters", "dtype": "object", "values": encs(col)}
     params = {"min_freq": 0.1, "output_dtype": "str", "dropna": True, "max_n_mod": 3}
     if cls != "ContinuousCarver":
